@@ -95,7 +95,7 @@ def gen_journal(rng):
     generator entry by entry (receive time, stored fields): otherwise the harness, not s4, is at fault"""
     import journalgen
     n = rng.choice((0, 1, 2, 3, 5, 12, 40, 150))
-    pattern = rng.choice(("increasing", "increasing", "ties", "same", "subsecond"))
+    pattern = rng.choice(("increasing", "increasing", "ties", "same", "subsecond", "stepped_back"))
     gents = journalgen.gen_entries(rng, n, pattern=pattern)
     for k, e in enumerate(gents):
         e.fields.append((b"_BOOT_ID", e.boot.hex().encode()))        # every real entry stores it
